@@ -263,6 +263,12 @@ def run_case(case):
                     return fail(f"Python assignment of {v} to {name}:{f} "
                                 f"raised {type(err).__name__}: {err}",
                                 bucket=("py-set", f[-1]))
+        held = {}
+        if percpu:
+            # sequences fetched now must stay live views of the map
+            e.vmap.read()
+            for i, (owner, name, f) in enumerate(inst):
+                held[i] = getattr(obj(e, owner), name)
         retval, _ = kernel.test_run(loaded.fd, bytes(64))
         if retval != 3:
             return fail(f"program returned {retval}")
@@ -293,6 +299,11 @@ def run_case(case):
                 return fail(f"Python read of {owner}.{name}:{f} raised "
                             f"{type(err).__name__}: {err}",
                             bucket=("py-get", f[-1], percpu))
+            if percpu and list(held[i]) != got:
+                return fail(f"the per-CPU sequence of {owner}.{name}:{f} "
+                            f"fetched before the last read() shows "
+                            f"{list(held[i])}, a fresh one {got}",
+                            bucket=("percpu-held", f[-1]))
             if percpu:
                 zero = tuple([0] * nelem(f)) if len(f) > 1 else 0
                 if f == "x":
